@@ -1,8 +1,29 @@
-(** C13_micro. shutdown() split into its stages: the flag is final and refuses every call that begins after it
+(** C13_micro. shutdown() split into its stages: the flag is final and refuses every call that begins after it; acknowledgements at every micro state
     This file only pins statements: every theorem restates a lemma of proofs/ verbatim and is closed by it. *)
 From CacheD Require Import Base Sketch Model Window Micro.
 From CacheD.proofs Require Import Defs ApiProofs HistoryProofs StatsProofs.
-From CacheD.proofs Require Import MicroProofs MicroBal MicroAll.
+From CacheD.proofs Require Import MicroProofs MicroBal MicroAll MicroAck.
+
+(** (every acknowledgement is answered): once the worker has executed Shutdown, at every later state of every micro
+   schedule, no acknowledgement that was ever handed out is pending - the commands queued behind Shutdown were answered
+   'shutting down', the ones before it with their outcome, and a send that arrives afterwards is answered at once *)
+Theorem C13_micro_draining_no_pending_all :
+  forall cfg evs a,
+  let ms := mrun cfg evs in
+  worker (mbase ms) = Draining -> 0 <= a -> alookup a (acks (mbase ms)) <> Some Pending.
+Proof. exact micro_draining_no_pending_all. Qed.
+Print Assumptions C13_micro_draining_no_pending_all.
+
+(** (C13 / C12 at every state of every micro schedule, no condition on the events): while the worker has not
+   panicked, an acknowledgement is pending exactly when its command is still queued or in flight inside the worker (in
+   any of its windows); every id handed out is below the id counter; no id is queued or in flight twice *)
+Theorem C13_micro_ack_pending_iff_all :
+  forall cfg evs a,
+  let ms := mrun cfg evs in
+  worker (mbase ms) <> Dead -> 0 <= a ->
+  (alookup a (acks (mbase ms)) = Some Pending <-> In a (map snd (queue (mbase ms))) \/ In a (inflight ms)).
+Proof. exact micro_ack_pending_iff_all. Qed.
+Print Assumptions C13_micro_ack_pending_iff_all.
 
 (** (C13, every event of the micro model - every window of every call and of every worker command, every stage of
    shutdown): once the flag is up it stays up *)
